@@ -157,10 +157,11 @@ def tc_min_len(x, k):
 
 
 def tc_val(s):
-    """int.from_bytes(s, 'big', signed=True)"""
+    """int.from_bytes(s, 'big', signed=True): the unsigned value, minus 2^(8n) when the top bit is set
+    (top bit set  <=>  value >= 2^(8n-1))"""
     if len(s) == 0:
         return 0
-    if s[0] >= 128:
+    if be_val(s) >= pow2(8 * len(s) - 1):
         return be_val(s) - pow2(8 * len(s))
     return be_val(s)
 
@@ -403,3 +404,67 @@ def ord___facts(c, r):
 @uninterpreted
 def chr_(n) -> Str:
     return chr(n)
+
+
+# ---------------------------------------------------------------------------------------------
+# round-trip lemmas (C01): decode o encode == id, as lemmas over the spec functions the two contracts use
+
+@lemma
+def pow2_8(k: Int):
+    requires(k >= 1)
+    ensures(pow2(8 * k) == 256 * pow2(8 * k - 8))
+    pow2_add(8 * k - 8, 8)
+
+
+@lemma
+def be_roundtrip_nonneg(x: Int, k: Int):
+    requires(k >= 0 and 0 <= x and x < pow2(8 * k))
+    ensures(be_val(be_bytes(x, k)) == x)
+    decreases(k)
+    if k > 0:
+        pow2_8(k)
+        be_roundtrip_nonneg(x // 256, k - 1)
+
+
+@lemma
+def be_roundtrip_neg(x: Int, k: Int):
+    requires(k >= 0 and -pow2(8 * k) <= x and x < 0)
+    ensures(be_val(be_bytes(x, k)) == x + pow2(8 * k))
+    decreases(k)
+    if k > 0:
+        pow2_8(k)
+        be_roundtrip_neg(x // 256, k - 1)
+
+
+@lemma
+def tc_roundtrip(x: Int, k: Int):
+    """INTEGER contents: from_bytes(to_bytes(x, k, signed), signed) == x   (BER/DER/OER/PER two's complement)"""
+    requires(k >= 1 and tc_fits(x, k))
+    ensures(tc_val(be_bytes(x, k)) == x)
+    pow2_add(8 * k - 1, 1)
+    pow2_mono(8 * k - 1, 8 * k)
+    if x >= 0:
+        be_roundtrip_nonneg(x, k)
+    else:
+        be_roundtrip_neg(x, k)
+
+
+@lemma
+def field_cat(a: Int, v: Int, n: Int, b: Int, k: Int):
+    """reading n bits at the right position of  cat(cat(a, (v, n)), (b, k))  returns v   (PER/OER stream round trip)"""
+    requires(n >= 0 and k >= 0 and a >= 0 and 0 <= v and v < pow2(n) and 0 <= b and b < pow2(k))
+    ensures((((a * pow2(n) + v) * pow2(k) + b) // pow2(k)) % pow2(n) == v)
+    div_cat(a * pow2(n) + v, b, pow2(k))
+    mod_cat(a, v, pow2(n))
+
+
+@lemma
+def div_cat(q: Int, r: Int, p: Int):
+    requires(p > 0 and 0 <= r and r < p)
+    ensures((q * p + r) // p == q)
+
+
+@lemma
+def mod_cat(q: Int, r: Int, p: Int):
+    requires(p > 0 and 0 <= r and r < p)
+    ensures((q * p + r) % p == r)
